@@ -68,7 +68,7 @@ Proof. exact canonical_file_in_grammar. Qed.
 
 (* the derive builds only checked trees from clean names: for EVERY environment whose definitions pass the boolean
    `def_cleanb` (Spec/GenClean.v: declarable type and parameter names; property names, variant names and tag keys that
-   need no escaping; no `type = ".."` text and no `flatten`; every shape, generics with defaults, `as`, `inline`,
+   need no escaping; no `type = ".."` text; `flatten` of structs with fields of their own; every shape, generics with defaults, `as`, `inline`,
    `optional`, the four enum representations, `skip`, `untagged`, documentation of ANY content), every definition of it and
    every fuel: if decl() answers, the declaration passes the check and its documentation is one comment block .. *)
 Theorem C04_generated_declaration_is_checked :
@@ -110,7 +110,7 @@ Proof.
 Qed.
 
 (* the hypothesis is satisfiable: a generic struct with a quoted key, documentation holding a comment terminator, an
-   inlined reference and an optional field, and an internally tagged enum over it; decl() answers for both *)
+   inlined reference and an optional field, an internally tagged enum over it, a host flattening it; decl() answers for all *)
 Module C04_clean.
 Local Open Scope string_scope.
 Definition l (s : String.string) : str := lit s.
@@ -128,7 +128,11 @@ Definition Outer := DEnum (ca "Outer" None []) (Internal (l "kind"%string)) None
       v_rename_all := None; v_skip := false; v_untagged := false; v_type := None; v_as := None |};
    {| v_ident := l "B"%string; v_shape := SUnit; v_rename := Some (l "b c"%string); v_rename_all := None; v_skip := false;
       v_untagged := false; v_type := None; v_as := None |}].
-Definition R : env := [(l "Inner"%string, Inner); (l "Outer"%string, Outer)].
+Definition Host := DStruct (ca "Host" None [])
+  (SNamed [fd "z" (RLeaf LBool) false NotOptional [];
+           {| f_ident := l "i"; f_ty := RWrap (RNamed (l "Inner") [RLeaf LString]); f_serde_ty := RLeaf LUnit; f_rename := None; f_skip := false;
+              f_inline := false; f_flatten := true; f_optional := NotOptional; f_type := None; f_docs := []; f_skip_none := false |}]).
+Definition R : env := [(l "Inner"%string, Inner); (l "Outer"%string, Outer); (l "Host"%string, Host)].
 End C04_clean.
 Example C04_clean_nonvacuous :
   clean_envb is_ascii_upper C04_clean.al is_ascii_digit C04_clean.R = true /\
@@ -139,6 +143,12 @@ Example C04_clean_nonvacuous :
  */
 ""first-name"": number, n?: string, }, other: Inner<boolean>, } | { ""kind"": ""b c"" };"%string) /\
   (exists dc, decl_of is_ascii_upper C04_clean.al is_ascii_digit C04_clean.R 5 C04_clean.Inner = Ok dc) /\
+  omap print_decl (decl_of is_ascii_upper C04_clean.al is_ascii_digit C04_clean.R 5 C04_clean.Host) =
+    Ok (lit "type Host = { z: boolean, 
+/**
+ * / x
+ */
+""first-name"": string, n?: string, };"%string) /\
   export_string is_ascii_upper C04_clean.al is_ascii_digit C04_clean.R true [lit "w"%string] 5 (RNamed (lit "Outer"%string) []) (lit "./bindings"%string) =
     Ok (NOTE ++ lit "import type { Inner } from ""./Inner.js"";
 
@@ -151,7 +161,7 @@ export type Outer = { ""kind"": ""A"", inner: {
  */
 ""first-name"": number, n?: string, }, other: Inner<boolean>, } | { ""kind"": ""b c"" };
 "%string).
-Proof. split; [vm_compute; reflexivity|]. split; [vm_compute; reflexivity|]. split; [eexists; vm_compute; reflexivity|]. vm_compute. reflexivity. Qed.
+Proof. split; [vm_compute; reflexivity|]. split; [vm_compute; reflexivity|]. split; [eexists; vm_compute; reflexivity|]. split; [vm_compute; reflexivity|]. vm_compute. reflexivity. Qed.
 
 (* the check is satisfiable by a declaration with documentation, quoted keys, a mapped type, a union of
    literals, a defaulted parameter; and it rejects a name holding a double quote and a reserved word *)
